@@ -52,6 +52,7 @@ type canRun struct {
 	verdict string
 	nontriv bool
 	replay  bool
+	timeouts int
 }
 
 func (r *canRun) viol(sig, detail string) {
@@ -86,7 +87,13 @@ func (r *canRun) frame(fr []byte, createsState bool, src, dst net.IP, sp, dp uin
 		return nil, nil
 	}
 	if expectEvent {
-		r.lab.ev.waitLen(ev0+1, 3*time.Second)
+		d := 3 * time.Second
+		if r.timeouts >= 3 {
+			d = 100 * time.Millisecond // the tree under test loses events: do not wait out every one
+		}
+		if !r.lab.ev.waitLen(ev0+1, d) {
+			r.timeouts++
+		}
 	} else if r.replay {
 		if _, _, _, _, _, wake := frameInfo(fr); wake {
 			r.lab.ev.waitLen(ev0+1, 60*time.Millisecond)
